@@ -31,7 +31,9 @@ SPEC = {
     'FrozenDict inputs; seeded random deeper trees over 12 keys; flat maps (prefix-free, shuffled) for the other '
     'direction; a malformed stream (keys containing or overlapping the separator, prefix conflicts, empty path). '
     'NNX State: random States with str/int keys and VariableState or plain leaves, pairs with overlapping paths, '
-    'filter lists of 1-4 callable predicates. A case is non-trivial when the tree has at least one leaf below '
+    'filter lists of 1-6 filters: callable / path predicates, plain Variable classes from a subclass hierarchy (Variable, Param, LoRAParam, '
+    'MyParam, MyLoRA, BatchStat, Cache, Intermediate; overlapping, base-first and subclass-first, every ordered pair exhaustively) and a closing `...`, '
+    'through split_state, filter_state, State.split/filter and FlatState.split/filter. A case is non-trivial when the tree has at least one leaf below '
     'the first level or an empty sub-dict; distinct = distinct canonical JSON of the case.'
   ),
   'trusted_base': [
@@ -485,13 +487,78 @@ def check_pam(ctx, drv, cases):
 # ------------------------------------------------------------------------------------------------
 
 LEAF = {'int': lambda n: n, 'vs': lambda n: nnx.VariableState(nnx.Param, n)}
+
+
+class MyParam(nnx.Param):
+  pass
+
+
+class MyLoRA(nnx.LoRAParam):
+  pass
+
+
+# a Variable-type hierarchy: type filters are NOT disjoint (Variable ⊇ Param ⊇ LoRAParam ⊇ MyLoRA, Param ⊇ MyParam)
+VTYPES = {
+  'Variable': nnx.Variable, 'Param': nnx.Param, 'LoRAParam': nnx.LoRAParam, 'MyParam': MyParam, 'MyLoRA': MyLoRA,
+  'BatchStat': nnx.BatchStat, 'Cache': nnx.Cache, 'Intermediate': nnx.Intermediate,
+}
+_VCLS = {c: n for n, c in VTYPES.items()}
+
+
+def mro_names(tname):
+  """the names (within VTYPES) of the class and of all its base classes: what the model's `ofType` looks at"""
+  if tname == 'int':
+    return []
+  return [_VCLS[c] for c in VTYPES[tname].__mro__ if c in _VCLS]
+
+
+SUBCLASS_PAIRS = [(a, b) for a in VTYPES for b in VTYPES if a != b and issubclass(VTYPES[b], VTYPES[a])]  # (base, sub)
 ERR_STATE = {TypeError: 'NotDict', IndexError: 'EmptyPath', AssertionError: 'NotMapping', AttributeError: 'AttributeError'}
 ERR_SPLIT = {**ERR_STATE, ValueError: 'NonExhaustive'}
 ERR_REPL = {**ERR_STATE, ValueError: 'KeyNotInState'}
 
 
-def mk_state(j, kind):
+def mk_state(j, kind, ltypes=None):
+  if kind == 'typed':
+    def leaf(n):
+      t = ltypes[str(n)]
+      return n if t == 'int' else nnx.VariableState(VTYPES[t], n)
+    return nnx.State(jt(j, leaf))
   return nnx.State(jt(j, LEAF[kind]))
+
+
+def types_table(c):
+  """[[leaf value, MRO names]] for the model's type predicates"""
+  vals = [v for _, v in ref_leaves(jt(c['state']))]
+  if c['leaf'] == 'typed':
+    return [[v, mro_names(c['ltypes'][str(v)])] for v in vals]
+  if c['leaf'] == 'vs':
+    return [[v, mro_names('Param')] for v in vals]
+  return []
+
+
+def py_filter(spec):
+  """the filter object handed to flax: a plain class for a type filter, `...` for the ellipsis, a callable otherwise"""
+  if spec == 'ellipsis':
+    return ...
+  if isinstance(spec, dict) and 'type' in spec:
+    return VTYPES[spec['type']]
+  return py_pred(spec)
+
+
+def oracle_pred(spec):
+  """what the filter means, written from the documentation and independent of filterlib: a type filter matches a leaf
+  whose variable type is that class or a subclass of it"""
+  if spec == 'ellipsis':
+    return lambda p, v: True
+  if isinstance(spec, dict) and 'type' in spec:
+    cls = VTYPES[spec['type']]
+    return lambda p, v: (isinstance(v, nnx.VariableState) and issubclass(v.type, cls)) or isinstance(v, cls)
+  return py_pred(spec)
+
+
+def model_pred(spec):
+  return 'all' if spec == 'ellipsis' else spec
 
 
 def leaf_sig(x):
@@ -689,22 +756,26 @@ def check_replace(ctx, drv, cases):
 
 
 def check_split(ctx, drv, cases):
-  """cases: {kind:'st-split', state, preds, leaf}: split_state / filter_state / merge_state of the parts"""
+  """cases: {kind:'st-split', state, preds, leaf[, ltypes]}: split_state / filter_state (and the State / FlatState
+  methods that share `_split_state`) / merge_state of the parts. Filters: callables, path filters, plain Variable
+  classes (overlapping: Variable ⊇ Param ⊇ LoRAParam …) and a trailing `...`."""
   recs = []
   reqs = []
   for c in cases:
-    s = mk_state(c['state'], c['leaf'])
-    preds = [py_pred(p) for p in c['preds']]
-    sp = call(statelib.split_state, s, *preds, errmap=ERR_SPLIT)
-    fi = call(statelib.filter_state, s, *preds, errmap=ERR_SPLIT)
+    s = mk_state(c['state'], c['leaf'], c.get('ltypes'))
+    flt = [py_filter(p) for p in c['preds']]
+    sp = call(statelib.split_state, s, *flt, errmap=ERR_SPLIT)
+    fi = call(statelib.filter_state, s, *flt, errmap=ERR_SPLIT)
     mg = None
     if sp[0] == 'ok':
       sts = as_list(sp[1])
       mg = call(statelib.merge_state, *sts, errmap=ERR_STATE)
       reqs.append(('merge', [[tj(x) for x in sts]]))
     recs.append((s, sp, fi, mg))
-    reqs.append(('split', [c['preds'], c['state']]))
-    reqs.append(('filter', [c['preds'], c['state']]))
+    mp = [model_pred(p) for p in c['preds']]
+    tbl = types_table(c)
+    reqs.append(('split', [mp, c['state'], tbl]))
+    reqs.append(('filter', [mp, c['state'], tbl]))
   outs = drv.run(reqs)
   k = 0
   for c, (s, sp, fi, mg) in zip(cases, recs):
@@ -716,41 +787,75 @@ def check_split(ctx, drv, cases):
     k += 2
     base = plain(s)
     L = ref_leaves(base)
-    preds = [py_pred(p) for p in c['preds']]
+    preds = [py_filter(p) for p in c['preds']]
+    opreds = [oracle_pred(p) for p in c['preds']]
     n = len(preds)
     idx = []
     for p, v in L:
       i = n
-      for j, f in enumerate(preds):
+      for j, f in enumerate(opreds):
         if f(p, v):
           i = j
           break
       idx.append(i)
     exhaustive = all(i < n for i in idx)
+    ntype = sum(1 for p in c['preds'] if isinstance(p, dict) and 'type' in p)
+    lead = 0
+    for p in c['preds']:
+      if not (isinstance(p, dict) and 'type' in p):
+        break
+      lead += 1
+    shadow = any(
+      isinstance(c['preds'][i], dict) and 'type' in c['preds'][i] and isinstance(c['preds'][j], dict) and 'type' in c['preds'][j]
+      and (c['preds'][i]['type'], c['preds'][j]['type']) in SUBCLASS_PAIRS
+      for i in range(n) for j in range(i + 1, n))
     ctx.case(c, nontrivial=n >= 2)
     ctx.count('split_nfilters', n)
     ctx.count('split_exhaustive', exhaustive)
+    ctx.count('split_type_filters', min(ntype, 4))
+    ctx.count('split_leading_type_run', min(lead, 4))
+    ctx.count('split_base_before_subclass', shadow)
+    ctx.count('split_leafkind', c['leaf'])
     want = [{p: v for (p, v), i in zip(L, idx) if i == b} for b in range(n)]
 
-    def parts_ok(r):
+    def parts_ok(r, flat=False):
       sts = as_list(r[1])
       if len(sts) != n:
         return False
       for st, w in zip(sts, want):
-        got = dict(ref_leaves(plain(st)))
+        got = dict(st) if flat else dict(ref_leaves(plain(st)))
         if set(got) != set(w) or any(got[p] is not w[p] for p in w):
           return False
       return True
 
-    if exhaustive:
-      if sp[0] != 'ok' or not parts_ok(sp):
-        ctx.violation('split-not-first-match', f'split_state({base!r}, {c["preds"]}) = {_show(sp)}; first-match partition is {want}', c)
+    def show(r, flat=False):
+      if r[0] != 'ok':
+        return r
+      return [dict(x) if flat else plain(x) for x in as_list(r[1])]
+
+    # every entry point that shares _split_state: the functions, the (deprecated) State methods, FlatState methods
+    variants = [
+      ('split_state', True, False, sp),
+      ('filter_state', False, False, fi),
+      ('State.split', True, False, call(lambda: s.split(*preds), errmap=ERR_SPLIT)),
+      ('State.filter', False, False, call(lambda: s.filter(*preds), errmap=ERR_SPLIT)),
+      ('FlatState.split', True, True, call(lambda: statelib.to_flat_state(s).split(*preds), errmap=ERR_SPLIT)),
+      ('FlatState.filter', False, True, call(lambda: statelib.to_flat_state(s).filter(*preds), errmap=ERR_SPLIT)),
+    ]
+    bad = False
+    for name, is_split, flat, r in variants:
+      if is_split and not exhaustive:
+        if r != ('err', 'NonExhaustive'):
+          ctx.violation('split-lossy', f'{name}({base!r}, {c["preds"]}) = {show(r, flat)} although some leaf matches no filter', dict(c, api=name))
+          bad = True
+          break
         continue
-    elif sp != ('err', 'NonExhaustive'):
-      ctx.violation('split-lossy', f'split_state({base!r}, {c["preds"]}) = {_show(sp)} although some leaf matches no filter', c)
-      continue
-    if fi[0] != 'ok' or not parts_ok(fi):
-      ctx.violation('filter-not-first-match', f'filter_state({base!r}, {c["preds"]}) = {_show(fi)}; first-match partition is {want}', c)
+      if r[0] != 'ok' or not parts_ok(r, flat):
+        key = ('split' if is_split else 'filter') + '-not-first-match' + ('-overlapping-type-filters' if shadow else '')
+        ctx.violation(key, f'{name}({base!r}, {c["preds"]}) = {show(r, flat)}; every leaf must land in the FIRST filter that matches it: {want}', dict(c, api=name))
+        bad = True
+        break
+    if bad:
       continue
     if sp[0] == 'ok':
       wantm = ref_norm_root(base, False, None)
@@ -1049,6 +1154,60 @@ def gen_preds(rng, state_j):
   return out
 
 
+TYPE_NAMES = list(VTYPES)
+
+
+def gen_typed_split(rng, st):
+  """a State whose leaves have variable types from the hierarchy, and a filter list whose type filters overlap in both
+  orders (base class first / subclass first), mixed with path and callable filters, usually closed by `...`"""
+  vals = [v for _, v in ref_leaves(jt(st))]
+  ltypes = {str(v): (rng.choice(TYPE_NAMES) if rng.random() < 0.92 else 'int') for v in vals}
+  preds = []
+  r = rng.random()
+  if r < 0.2:
+    preds.append(rng.choice(PRED_ATOMS[2:]))  # a path / callable filter in front of the type filters
+  # the leading run of type filters
+  if rng.random() < 0.75:
+    base, sub = rng.choice(SUBCLASS_PAIRS)
+    pair = [base, sub] if rng.random() < 0.6 else [sub, base]
+    run = [{'type': t} for t in pair]
+    for _ in range(rng.randrange(0, 3)):
+      run.insert(rng.randrange(len(run) + 1), {'type': rng.choice(TYPE_NAMES)})
+  else:
+    run = [{'type': rng.choice(TYPE_NAMES)} for _ in range(rng.randrange(1, 4))]
+  preds += run
+  for _ in range(rng.randrange(0, 3)):
+    x = rng.random()
+    if x < 0.4:
+      preds.append({'type': rng.choice(TYPE_NAMES)})
+    else:
+      preds.append(rng.choice(PRED_ATOMS[1:]))
+  x = rng.random()
+  if x < 0.6:
+    preds.append('ellipsis')
+  elif x < 0.75:
+    preds.append('all')
+  return {'kind': 'st-split', 'state': st, 'preds': preds, 'leaf': 'typed', 'ltypes': ltypes}
+
+
+def typed_pair_cases():
+  """small exhaustive scope: one leaf of every variable type (plus a plain leaf), every ordered pair of type filters,
+  alone, behind a path filter, and without the closing `...`"""
+  st = {'D': [['enc', {'D': [[n, {'L': i + 1}] for i, n in enumerate(TYPE_NAMES[:4])]}],
+              ['dec', {'D': [[n, {'L': i + 5}] for i, n in enumerate(TYPE_NAMES[4:])] + [['plain', {'L': 9}]]}]]}
+  ltypes = {str(i + 1): n for i, n in enumerate(TYPE_NAMES)}
+  ltypes['9'] = 'int'
+  out = []
+  for t1 in TYPE_NAMES:
+    for t2 in TYPE_NAMES:
+      if t1 == t2:
+        continue
+      for preds in ([{'type': t1}, {'type': t2}, 'ellipsis'], [{'contains': 'enc'}, {'type': t1}, {'type': t2}, 'ellipsis'],
+                    [{'type': t1}, {'type': t2}], [{'type': t1}, {'type': t2}, {'type': 'Variable'}, {'lt': 100}]):
+        out.append({'kind': 'st-split', 'state': st, 'preds': preds, 'leaf': 'typed', 'ltypes': ltypes})
+  return out
+
+
 def gen_pair(rng):
   a = gen_tree(rng, rng.randrange(1, 4), rng.randrange(2, 5), p_leaf=0.45, int_ok=True, keys=STR_KEYS[:8])
   la = ref_leaves(jt(a))
@@ -1247,10 +1406,12 @@ def run(ctx):
     kind = rng.choice(['int', 'vs'])
     conv.append({'kind': 'st-conv', 'state': st, 'leaf': kind})
     splits.append({'kind': 'st-split', 'state': st, 'preds': gen_preds(rng, st), 'leaf': kind})
+    splits.append(gen_typed_split(rng, st))
     pairs.append(gen_pair(rng))
     repls.append(gen_replace(rng))
   pairs.append({'kind': 'st-pair', 'a': fixed[1], 'b': {'D': [['layers', {'D': [[1, {'L': 7}]]}]]}, 'leaf': 'vs'})
   _batched(check_conv, ctx, drv, conv)
+  splits += typed_pair_cases()
   _batched(check_split, ctx, drv, splits)
   _batched(check_pair, ctx, drv, pairs)
   _batched(check_replace, ctx, drv, repls)
@@ -1263,7 +1424,7 @@ def run(ctx):
 
 def _run_case(ctx, drv, obj):
   case = obj.get('case', obj)
-  case = {k: v for k, v in case.items() if k not in ('lib', 'variant', 'op', 'origin', 'order', 'part')}
+  case = {k: v for k, v in case.items() if k not in ('lib', 'variant', 'op', 'origin', 'order', 'part', 'api')}
   kind = case.get('kind')
   if kind == 'rt':
     case.setdefault('frozen', False)
